@@ -333,6 +333,7 @@ def run(ctx):
     ctx.cov["traces_validated_against_impl"] = accepted
     ctx.cov["conformance"] = conform
     ctor_contract(ctx)
+    pool_pair(ctx)
     if ctx.prop == "C09":
         # "its FutureResult then reports done and yields the very object / raises the very exception": judged at the
         # granularity of single field operations by the Future machinery (shared with C16)
@@ -342,6 +343,29 @@ def run(ctx):
     split["total"] = round(time.time() - t0, 1)
     ctx.cov["wall_split"] = split
     print("wall split:", split)
+
+
+PAIR = {"C09": {"OwnServesPair", "OtherServesPair"}, "C10": {"OwnServesPair", "OtherServesPair"},
+        "C11": {"CallsReturnPair", "WorkersTerminatePair", "StoppedStaysStopped", "OtherServesPair"}}
+
+
+def pool_pair(ctx):
+    """Two pools alive in one process (independent instances of ThreadPool.tla): PoolPairJudge.tla judges what the callers
+    saw in random start / enqueue / join / stop histories over the pair."""
+    from harness import casejudge
+    of = ctx.path("pair.json")
+    common.run_py(os.path.join(VERIF, "harness", "poolpair_run.py"), [of, ctx.seed, 60 if ctx.tier == "quick" else 1500])
+    recs = json.load(open(of))
+    fails, _ = casejudge.judge(ctx, "PoolPairJudge", of, "PoolPairJudge.cfg")
+    for i, r in enumerate(recs, 1):
+        ctx.cov["evaluations"] += 1
+        ctx._distinct.add("pair:%s" % r["seed"])
+        for name in sorted(fails.get(i, set()) & PAIR[ctx.prop]):
+            bad = [o for o in r["ops"] if o["ret"] != "returned" or o.get("own_alive_after", 0) != 0
+                   or o["serves"] not in ("ok", "na") or o["other_serves"] not in ("ok", "na") or o["other_alive_stopped"]]
+            ctx.violation("%s:two-pools" % name, "%s is false for a history over two pools of one process (sizes %s): step %s" % (
+                name, r["sizes"], json.dumps(bad[0]) if bad else "-"), {"kind": "pair", "case": r})
+    ctx.cov["pair_histories"] = len(recs)
 
 
 def ctor_contract(ctx):
